@@ -129,13 +129,9 @@ def r14_1(ck):
         f = ci.methods.get('serialize')
         ck.functions.add(f.fq)
         for r in ast.walk(f.node):
-            js = None
-            if isinstance(r, ast.Return) and isinstance(
-                    r.value, ast.JoinedStr):
-                js = r.value
-            elif isinstance(r, ast.Call) and A.call_name(r) == 'append' \
-                    and r.args and isinstance(r.args[0], ast.JoinedStr):
-                js = r.args[0]
+            # every f-string of serialize() produces serialised text
+            # (returned, appended or collected by a comprehension)
+            js = r if isinstance(r, ast.JoinedStr) else None
             if js is None:
                 continue
             n += 1
